@@ -144,6 +144,14 @@ func (r *Recorder) Fail(t fataler, c any, format string, args ...any) {
 	t.Fatalf("%s", msg)
 }
 
+// SaveCurrent writes the case about to be executed to VERIF_CURRENT_OUT. It is
+// used where a failure can kill the process before a verdict is reached (a
+// panic on a goroutine the harness cannot recover, a race-detector halt): the
+// driver then reports this file as the replay.
+func SaveCurrent(property string, c any) {
+	SaveReplay(os.Getenv("VERIF_CURRENT_OUT"), property, "case that was executing when the process died", c)
+}
+
 // SaveReplay writes a replay file (no-op when path is empty).
 func SaveReplay(path, property, msg string, c any) {
 	if path == "" {
